@@ -543,7 +543,8 @@ def c15(run):
         for r in descs:
             if r["verdict"] != "Accepted":
                 continue
-            flavors = ["plain", "typed"]
+            # (`mut` bindings: the array form only takes single-token patterns)
+            flavors = ["plain", "typed"] + (["mutbind"] if "b" in r["pats"] and r["shape"] != "array" else [])
             if r["shape"] == "braced":
                 flavors += ["packed"] + (["generic"] if r["n"] > 0 else [])
             if r["shape"] == "tuple_struct":
